@@ -101,7 +101,7 @@ func cmdRun(args []string) {
 			}
 			n++
 			dir := filepath.Join(ld.verif, "replays", "dev", fmt.Sprintf("%s-%d", name, n))
-			rr := replay(ld, hs.fn, f, dir)
+			rr := replayP(ld, hs.fn, f, dir, spec.Params)
 			fmt.Printf("replay %s: %s (expected %s) dir=%s\n", f.Site, rr.Outcome, expectedOutcome(f.Site), dir)
 			if *verbose {
 				fmt.Println(rr.Tail)
@@ -242,7 +242,7 @@ func cmdCheck(id string, args []string) int {
 			}
 			nrep++
 			dir := filepath.Join(ld.verif, "replays", id, fmt.Sprintf("%s-%d", spec.Name, nrep))
-			rr := replay(ld, hs.fn, f, dir)
+			rr := replayP(ld, hs.fn, f, dir, spec.Params)
 			f.Replay = rr
 			if rr.Confirms {
 				violations++
